@@ -137,7 +137,7 @@ impl Check for C11Check {
         true
     }
     fn rule(&self) -> String {
-        "scenario = one simulated main event (forward-model event with 2-5 tracks and ADC noise; synthetic hit pattern incl. seam blocks and full ring; event with one event-builder inconsistency, notably duplicated banks whose copies differ; extreme-value event) and a schedule of trials: bank-list permutations {identity, reversal, rotations, seeded shuffles (PWB chunks scattered among other banks), adjacent transpositions - ALL of them for events of <= 40 banks, sampled otherwise} x hash keys (>= 4 distinct per event, installed through the getrandom seam on a fresh 64 MiB-stack thread per trial) x placement {twice on the same thread, another thread, another PROCESS (child harness process)}; each scenario exists for the release and the overflow-checked build. Oracle: every trial of one event returns the same digest = Err, or (u32 timestamp, bit patterns of t/phi/z/wire_amplitude/pad_amplitude of every avalanche in list order, bit patterns of the vertex). Non-trivial = at least 4 trials executed on an event with >= 2 banks; distinct = distinct event-log hashes (bank bytes + trial list + digest).".into()
+        "scenario = one simulated main event (forward-model event with 2-5 tracks and ADC noise; synthetic hit pattern incl. seam blocks and full ring; event with one event-builder inconsistency, notably duplicated banks whose copies differ; extreme-value event) and a schedule of trials: bank-list permutations {identity, reversal, rotations, seeded shuffles (PWB chunks scattered among other banks), adjacent transpositions - ALL of them for events of <= 40 banks, sampled otherwise} x hash keys (>= 4 distinct per event, installed through the getrandom seam on a fresh 64 MiB-stack thread per trial) x placement {twice on the same thread, another thread, after a large event and 1-2 mostly REJECTED events (any of the 32 event-builder faults, extreme packets) computed on the same thread, another PROCESS (child harness process)}; each scenario exists for the release and the overflow-checked build. Oracle: every trial of one event returns the same digest = Err, or (u32 timestamp, bit patterns of t/phi/z/wire_amplitude/pad_amplitude of every avalanche in list order, bit patterns of the vertex). Non-trivial = at least 4 trials executed on an event with >= 2 banks; distinct = distinct event-log hashes (bank bytes + trial list + digest).".into()
     }
     fn assumptions(&self) -> Vec<String> {
         vec![
